@@ -98,7 +98,7 @@ type setup struct {
 
 // build instantiates parameters, keys and evaluator through the public constructors; ok=false: the library
 // rejected the literal with an error (counted in coverage by the caller).
-func build(c *engine.Chooser, tag string, resLit ckks.ParametersLiteral, btpLit bootstrapping.ParametersLiteral, adjust func(*bootstrapping.Parameters)) (s setup, rejected string) {
+func build(c *engine.Chooser, tag string, resLit ckks.ParametersLiteral, btpLit bootstrapping.ParametersLiteral, adjust func(*bootstrapping.Parameters), announced bool) (s setup, rejected string) {
 	var err error
 	if s.res, err = ckks.NewParametersFromLiteral(resLit); err != nil {
 		return s, "residual: " + err.Error()
@@ -115,7 +115,22 @@ func build(c *engine.Chooser, tag string, resLit ckks.ParametersLiteral, btpLit 
 		return s, ""
 	}
 	checkKeyLevels(c, tag, s.btp, s.evk)
-	if s.eval, err = bootstrapping.NewEvaluator(s.btp, s.evk); err != nil {
+	if announced {
+		// the bundle built from the announced quantities replaces the helper's
+		s.evk, _ = announcedKeys(s.btp, s.sk)
+		checkKeyLevels(c, tag+" (keys built from the announced lists)", s.btp, s.evk)
+		checkCompleteness(c, tag, s.btp, s.evk)
+		if c.Failed() {
+			return s, ""
+		}
+		if s.eval, err = bootstrapping.NewEvaluator(s.btp, s.evk); err != nil {
+			if _, e2 := bootstrapping.NewEvaluator(s.btp, mustKeys(s.btp, s.sk)); e2 == nil {
+				c.Fail("C18/announced/NewEvaluator-refuses-keys-built-from-announced-lists", "%s: %v (the helper's keys are accepted)", tag, err)
+				return s, ""
+			}
+			return s, "evaluator: " + err.Error()
+		}
+	} else if s.eval, err = bootstrapping.NewEvaluator(s.btp, s.evk); err != nil {
 		return s, "evaluator: " + err.Error()
 	}
 	// from here on every key request of the circuit goes through the recorder (all sub-evaluators share this
@@ -123,6 +138,14 @@ func build(c *engine.Chooser, tag string, resLit ckks.ParametersLiteral, btpLit 
 	s.rec = newRecSet(s.evk.MemEvaluationKeySet)
 	s.eval.Evaluator.Evaluator.EvaluationKeySet = s.rec
 	return s, ""
+}
+
+func mustKeys(p bootstrapping.Parameters, sk *rlwe.SecretKey) *bootstrapping.EvaluationKeys {
+	evk, _, err := p.GenEvaluationKeys(sk)
+	if err != nil {
+		panic("harness: " + err.Error())
+	}
+	return evk
 }
 
 // judgeIterated: what the iterated high-precision mode *announces*, independently of the calibration.
@@ -205,7 +228,14 @@ func runFunctional(c *engine.Chooser, k cfg) {
 	}
 	uni.Seed(c, "func", key)
 	resLit, btpLit := k.literals()
-	s, rejected := build(c, key, resLit, btpLit, nil)
+	calKey := key
+	if k.Announced {
+		if os.Getenv("VERIF_C18_CALIBRATE") != "" {
+			return // judged against the entry of the same configuration with the helper's keys
+		}
+		key += "/announced-keys"
+	}
+	s, rejected := build(c, key, resLit, btpLit, nil, k.Announced)
 	if c.Failed() {
 		return
 	}
@@ -388,7 +418,7 @@ func runFunctional(c *engine.Chooser, k cfg) {
 		// whether or not the levels are right. Level, scale and errors are judged; the precision is not.
 		c.Cover("calibration", "not-judged-c2s-sqrt-scales")
 	} else {
-		judgePrecision(c, "func", key, worst, known)
+		judgePrecision(c, "func", calKey, worst, known)
 	}
 	if known == "" {
 		judgeIterated(c, k, key, worst)
